@@ -32,7 +32,7 @@ var c10FieldExceptions = map[string]string{
 	"Remote.Client": "lazy default in Remote.Call; every construction that is called concurrently sets Client explicitly (server.go, agent.go, host.go), client.go's Remote is used by one agent goroutine",
 }
 
-func fieldKey(t *types.Named, f *types.Var) string { return t.Obj().Name() + "." + f.Name() }
+func fieldKey(t *types.Named, f *types.Var) string { return an.TName(t) + "." + an.Ident(f.Name()) }
 
 func structOfFieldAccess(v ssa.Value) *types.Named {
 	var base types.Type
@@ -344,7 +344,7 @@ func runC10(p *an.Prog, r *an.Run, tier string) {
 			baseKey := lockBase(br) + bp
 			ok := false
 			for _, m := range sharedSet[t] {
-				want := an.LockKey(baseKey + "." + m.Name())
+				want := an.LockKey(baseKey + "." + an.Ident(m.Name()))
 				if wr, held := h[want]; held && (wr || !a.write) {
 					ok = true
 				}
@@ -404,7 +404,7 @@ func runC10(p *an.Prog, r *an.Run, tier string) {
 			}
 			// sort.Interface methods of pendingQueue: only sorted inside pendingOldest on a slice built there
 			if fn.Signature.Recv() != nil {
-				if n := namedOf(fn.Signature.Recv().Type()); n != nil && n.Obj().Name() == "pendingQueue" {
+				if n := namedOf(fn.Signature.Recv().Type()); n != nil && an.TName(n) == "pendingQueue" {
 					exc = true
 				}
 			}
@@ -470,7 +470,7 @@ func runC10(p *an.Prog, r *an.Run, tier string) {
 			}
 			t := structOfFieldAccess(fa)
 			fv := an.FieldOf(fa)
-			if t == nil || fv == nil || t.Obj().Name() != "Client" || t.Obj().Pkg().Path() != pkgRPC || fv.Name() != "id" {
+			if t == nil || fv == nil || t.Obj().Name() != "Client" || t.Obj().Pkg().Path() != pkgRPC || an.Ident(fv.Name()) != "id" {
 				return
 			}
 			nID++
@@ -637,7 +637,7 @@ func blockingKind(p *an.Prog, in ssa.Instruction) string {
 		case isServiceCall(f):
 			return "RPC call " + an.ObjString(f)
 		case an.RecvNamed(f) != nil && an.RecvNamed(f).Obj().Pkg() != nil && an.RecvNamed(f).Obj().Pkg().Path() == pkgRPC &&
-			(f.Name() == "ReadMessage" || f.Name() == "WriteMessage" || f.Name() == "Handle" || f.Name() == "Serve" || f.Name() == "receive" || f.Name() == "handleRequest"):
+			(f.Name() == "ReadMessage" || f.Name() == "WriteMessage" || f.Name() == "Handle" || f.Name() == "Serve" || an.Ident(f.Name()) == "receive" || an.Ident(f.Name()) == "handleRequest"):
 			return "codec/handler call " + an.ObjString(f)
 		case an.IsMethod(f, pkgRPC, "Method", "Call") || an.IsMethod(f, pkgRPC, "Method", "CallJSON"):
 			return "handler dispatch"
